@@ -1044,6 +1044,17 @@ mod os {
             ensure_child_stream(&mut child_stdout, StandardStream::Output)?;
             ensure_child_stream(&mut child_stderr, StandardStream::Error)?;
             let cmdline = assemble_cmdline(argv)?;
+            if let Some(ref env) = config.env {
+                // a NUL would end the variable (or the whole block) early
+                for (name, value) in env {
+                    if name.encode_wide().chain(value.encode_wide()).any(|c| c == 0) {
+                        return Err(io::Error::from_raw_os_error(
+                            win32::ERROR_BAD_PATHNAME as i32,
+                        )
+                        .into());
+                    }
+                }
+            }
             let env_block = config.env.map(|env| format_env_block(&env));
             // CreateProcess doesn't search for appname in the PATH.
             // We do it ourselves to match the Unix behavior.
